@@ -26,6 +26,8 @@ C17, growth round 6: the boundary of the Itoh condition, orientation symmetry, a
   hops (tree height ≤ largest rank).
 * `call_valid_mod` — the public entry point, EVERY input: result − input ∈ 2πℤ + one constant.
 * `session_wrap_flip` — `wrap_flip_agree` inside any history of calls, either call first.
+* `assemble_mean_zero`, `unwrap_output_mean_zero` — the single constant is the mean: every result on a
+  non-empty grid sums to zero over all pixels.
 -/
 namespace QuantemModel.Props.C17
 open QuantemModel QuantemModel.Unwrap QuantemModel.Unwrap.UF
@@ -469,5 +471,48 @@ example :
         ⟨.reliabilitySorting, [1, 4], φ, none, true, some [(3, 0), (1, 2), (0, 1), (2, 3), (0, 0), (1, 1), (2, 2), (3, 3)]⟩]).map outcomeTag
       = [("ok", some [-3/4, 0, 3/4, 0]), ("ok", some [-3/4, 0, 3/4, 0])] := by
   decide +kernel
+
+/-! ## 14. Which constant: the output has mean zero -/
+
+/-- `Num.sum` (a left fold) at ℝ -/
+theorem foldl_add_real (xs : List ℝ) : ∀ a : ℝ, xs.foldl (· + ·) a = a + xs.sum := by
+  induction xs with
+  | nil => intro a; simp
+  | cons x xs ih => intro a; rw [List.foldl_cons, ih, List.sum_cons]; ring
+
+theorem sum_map_sub_const (xs : List ℝ) (m : ℝ) : (xs.map (· - m)).sum = xs.sum - xs.length * m := by
+  induction xs with
+  | nil => simp
+  | cons x xs ih => simp only [List.map_cons, List.sum_cons, List.length_cons, ih]; push_cast; ring
+
+/-- **Which constant.**  `out -= out.mean()`: on a non-empty grid the assembled output has mean
+zero over ALL `N` pixels (masked-out ones included) — the "single constant" of the property is
+the mean of `phi + 2π·incs`, nothing else. -/
+theorem assemble_mean_zero (half : ℝ) (N : Nat) (hN : 0 < N) (phi : Nat → ℝ) (incs : List Int) :
+    (assemble half N phi incs).sum = 0 := by
+  unfold assemble
+  simp only [Num.sum]
+  rw [sum_map_sub_const, foldl_add_real]
+  simp only [NumReal.zero_eq, NumReal.div_eq, NumReal.ofNat_eq, List.length_map, List.length_range, zero_add]
+  have : (N : ℝ) ≠ 0 := by exact_mod_cast hN.ne'
+  field_simp
+  ring
+
+/-- … for every run of the unwrapper on a non-empty grid (any input, any edges, any order) -/
+theorem unwrap_output_mean_zero (half : ℝ) (N : Nat) (hN : 0 < N) (w : Nat → ℝ) (es : List Edge) (out : List ℝ)
+    (h : unwrapSorted half N w es = some out) : out.sum = 0 := by
+  unfold unwrapSorted at h
+  cases h1 : unionAll (UF.init N) es with
+  | none => simp [h1] at h
+  | some u =>
+    cases h2 : finalOffsets u with
+    | none => simp [h1, h2] at h
+    | some incs =>
+      simp only [h1, h2, Option.some.injEq] at h
+      rw [← h]
+      exact assemble_mean_zero half N hN w incs
+
+example : (unwrapPhase2d (1 : Rat) 1 4 (fun i => #[0, 3/4, -1/2, 1/4].getD i 0) [(2, 3), (0, 1), (1, 2)]).map
+    (fun o => Num.sum o) = some 0 := by decide +kernel
 
 end QuantemModel.Props.C17
